@@ -349,6 +349,26 @@ fn check_doc(d: &Doc, cfg: &Cfg, cfg_name: &str, sig_class: &str) -> CaseResult 
                                             mk("local-style-scope-is-not-the-root-id", format!("{doc}\nrules are scoped to #{scope} but the root element has id {:?}", ra.attr("id")));
                                         }
                                     }
+                                    // a rule for a class which only the root element carries must be able to match the root:
+                                    // inside the nested "#id {" block a plain ".class" selects descendants only
+                                    let elsewhere: BTreeSet<String> = {
+                                        let mut below = BTreeSet::new();
+                                        for n in &inj.rest {
+                                            if let Node::El(e) = n {
+                                                collect_used(e, &mut below);
+                                            }
+                                        }
+                                        below.into_iter().map(|(_, c)| c).collect()
+                                    };
+                                    if let Some(block) = text.find(" {\n").and_then(|_| text.find("\n      #")).map(|p| &text[p..]) {
+                                        for c in ra.classes() {
+                                            let plain = format!("\n      .{c} {{");
+                                            let on_root = [format!("&.{c}"), format!("svg.{c}"), format!("#{}.{c}", ra.attr("id").unwrap_or(""))];
+                                            if c.starts_with("d-") && !elsewhere.contains(c) && block.contains(&plain) && !on_root.iter().any(|s| text.contains(s.as_str())) {
+                                                mk("local-rule-cannot-match-the-root", format!("{doc}\nthe rule for .{c} is nested in the block scoped to the root's id, where it selects descendants only; the root is the only element carrying the class"));
+                                            }
+                                        }
+                                    }
                                 }
                                 for n in &inj.rest {
                                     if let Node::El(e) = n {
@@ -480,6 +500,10 @@ pub fn run(tier: Tier) -> i32 {
     // ... whatever characters that id is made of
     for (k, id) in ["fig.1", "a:b", "1st", "x.y:z-1", "\u{e9}t\u{e9}", "a b", "", "-1", "-", "--x", "-a"].iter().enumerate() {
         docs.push((Doc { body: carrier(FAMILY_REPS[k % 6], 2), root: true, author: 0, root_attrs: format!(" id=\"{id}\"") }, usize::MAX, format!("local-author-id-chars/{k}")));
+    }
+    // ... and with classes which only the root carries
+    for c in ["d-fill-red", "d-softshadow", "d-grid-5"] {
+        docs.push((Doc { body: "<rect wh=\"5\"/>".into(), root: true, author: 0, root_attrs: format!(" class=\"{c}\"") }, usize::MAX, format!("local-root-class/{c}")));
     }
     // local styles requested but auto-styles off: nothing at all is injected, not even an id
     docs.push((Doc { body: carrier("d-red", 0), root: true, author: 0, root_attrs: String::new() }, usize::MAX - 1, "local-but-disabled".into()));
